@@ -2,6 +2,7 @@
 //! against scheduled sinks and chunking Display values.
 //! case:   <wrapper D|H|B|HB|BB|FB> <pieces hex,hex,..|-> <schedule tokens aN|i|fN|wN,..|->
 //!         a trailing c (Dc, Hc, ..): the Display impl hands its text over char by char through Formatter::write_char
+//!         RB = a buffer filled by a ToHtml impl that writes the pieces as raw bytes (any bytes), then written out
 //!         FB = B on a thread where a to_buffer() of a failing ToHtml value came just before; wN = fails with WouldBlock
 //! result: <hex of accepted bytes> <ok|wz|ioN|other:..> [<hex buffer> <eq flags>]
 use crate::{hex, unhex};
@@ -39,6 +40,16 @@ impl ToHtml for Failing {
     fn to_html(&self, out: &mut dyn Write) -> io::Result<()> {
         out.write_all(&self.0)?;
         Err(io::Error::new(io::ErrorKind::Other, "E99"))
+    }
+}
+/// a value with its own ToHtml that writes the given byte pieces as they are
+struct RawBytes(Vec<Vec<u8>>);
+impl ToHtml for RawBytes {
+    fn to_html(&self, out: &mut dyn Write) -> io::Result<()> {
+        for p in &self.0 {
+            out.write_all(p)?;
+        }
+        Ok(())
     }
 }
 struct Sink {
@@ -88,11 +99,9 @@ pub fn run() {
     for line in stdin.lock().lines() {
         let line = line.unwrap();
         let f: Vec<&str> = line.split(' ').collect();
-        let pieces: Vec<String> = if f[1] == "-" {
-            vec![]
-        } else {
-            f[1].split(',').map(|p| String::from_utf8(unhex(p)).unwrap()).collect()
-        };
+        let raw: Vec<Vec<u8>> = if f[1] == "-" { vec![] } else { f[1].split(',').map(unhex).collect() };
+        // RB: the pieces are bytes a user's own ToHtml writes (not necessarily UTF-8); every other wrapper formats text
+        let pieces: Vec<String> = if f[0] == "RB" { vec![] } else { raw.iter().map(|p| String::from_utf8(p.clone()).unwrap()).collect() };
         let mut sink = Sink { sched: Default::default(), log: vec![] };
         if f[2] != "-" {
             for t in f[2].split(',') {
@@ -118,6 +127,11 @@ pub fn run() {
                 let junk = Failing(b"<leftover>&".to_vec()).to_buffer();
                 assert!(junk.is_err());
                 let b = v.to_buffer().unwrap();
+                let r = b.to_html(&mut sink);
+                (r, Some(b))
+            }
+            "RB" => {
+                let b = RawBytes(raw.clone()).to_buffer().unwrap();
                 let r = b.to_html(&mut sink);
                 (r, Some(b))
             }
